@@ -166,3 +166,95 @@ fn bprime_sanitize_small_domain() {
     }
     println!("BPRIME evaluations={n}");
 }
+
+// ---------------------------------------------------------------------------
+// C04 / C15, tier B′ (native, this process as the target): enumerate_threads lists every thread of the
+// process exactly once with the name the kernel reports (trailing newline removed, nothing else).
+// Domain: 6 helper threads with names covering length 0..15, leading/inner whitespace and non-ASCII.
+// ---------------------------------------------------------------------------
+#[test]
+fn bprime_enumerate_threads_of_this_process() {
+    use std::sync::{Arc, Barrier};
+    let names: [&[u8]; 6] = [b"plain", b"  lead er", b"\tw\xc3\xb6rker", b"fifteen-chars-x", b"in ner  sp", b"x"];
+    let start = Arc::new(Barrier::new(names.len() + 1));
+    let stop = Arc::new(Barrier::new(names.len() + 1));
+    let tids = Arc::new(std::sync::Mutex::new(Vec::new()));
+    let mut handles = Vec::new();
+    for name in names {
+        let (start, stop, tids) = (start.clone(), stop.clone(), tids.clone());
+        handles.push(std::thread::spawn(move || {
+            let mut buf = [0u8; 16];
+            buf[..name.len()].copy_from_slice(name);
+            unsafe { libc::prctl(libc::PR_SET_NAME, buf.as_ptr()); }
+            tids.lock().unwrap().push((unsafe { libc::gettid() }, String::from_utf8(name.to_vec()).unwrap()));
+            start.wait();
+            stop.wait();
+        }));
+    }
+    start.wait();
+    let mut d = bare_dumper(vec![]);
+    d.pid = std::process::id() as Pid;
+    let mut errs = ErrorList::<InitError>::default();
+    d.enumerate_threads(&mut errs).expect("enumerate_threads");
+    let listed: Vec<(Pid, Option<String>)> = d.threads.iter().map(|t| (t.tid, t.name.clone())).collect();
+    // the kernel's own list
+    let mut kernel: Vec<Pid> = std::fs::read_dir("/proc/self/task").unwrap().map(|e| e.unwrap().file_name().to_str().unwrap().parse().unwrap()).collect();
+    stop.wait();
+    for h in handles { h.join().unwrap(); }
+    kernel.sort();
+    let mut got: Vec<Pid> = listed.iter().map(|t| t.0).collect();
+    got.sort();
+    assert_eq!(got, kernel, "every thread of the process exactly once");
+    assert!(errs.is_empty());
+    let mut n = 0;
+    for (tid, name) in tids.lock().unwrap().iter() {
+        let entry = listed.iter().find(|t| t.0 == *tid).expect("helper thread listed");
+        assert_eq!(entry.1.as_deref(), Some(name.as_str()), "thread {tid}: the name the kernel reports");
+        n += 1;
+    }
+    println!("BPRIME evaluations={n}");
+    std::mem::forget(d);
+}
+
+// ---------------------------------------------------------------------------
+// C08, tier B′ (native, this process as the target): for EVERY derived mapping of this process taken as the
+// one that holds the program entry point, enumerate_mappings puts it first and otherwise keeps the set of
+// mappings unchanged.
+// ---------------------------------------------------------------------------
+#[test]
+fn bprime_entry_point_mapping_is_first() {
+    let pid = std::process::id() as Pid;
+    let reference = {
+        let mut d = bare_dumper(vec![]);
+        d.pid = pid;
+        d.enumerate_mappings().expect("enumerate_mappings");
+        let m = d.mappings.clone();
+        std::mem::forget(d);
+        m
+    };
+    assert!(reference.len() > 5);
+    let mut n = 0;
+    for target in reference.iter().filter(|m| m.name_is_path()) {
+        for entry in [target.start_address, target.start_address + target.size - 1] {
+            let mut d = bare_dumper(vec![]);
+            d.pid = pid;
+            d.auxv = crate::linux::auxv::AuxvDumpInfo::from(crate::linux::auxv::DirectAuxvDumpInfo {
+                program_header_count: 0, program_header_address: 0, linux_gate_address: 0, entry_address: entry as u64,
+            });
+            d.enumerate_mappings().expect("enumerate_mappings");
+            n += 1;
+            // the heap may grow between two reads of /proc/self/maps: compare by start address only
+            let first = &d.mappings[0];
+            assert!(first.start_address <= entry && entry < first.start_address + first.size,
+                "entry {entry:#x}: the first mapping is {:#x}+{:#x} ({:?}), expected the one starting at {:#x}",
+                first.start_address, first.size, first.name, target.start_address);
+            // anonymous regions (heap, arenas) move while this test allocates: compare the file-backed ones
+            let mut a: Vec<usize> = d.mappings.iter().filter(|m| m.name_is_path()).map(|m| m.start_address).collect();
+            let mut b: Vec<usize> = reference.iter().filter(|m| m.name_is_path()).map(|m| m.start_address).collect();
+            a.sort(); b.sort();
+            assert_eq!(a, b, "the set of mappings is unchanged by the reordering");
+            std::mem::forget(d);
+        }
+    }
+    println!("BPRIME evaluations={n}");
+}
